@@ -594,8 +594,26 @@ def _erase(o, a):
 def _insert(o, a):
     if not (0 <= a[0].pos <= len(o.items)):
         raise OutOfBounds("insert at %d on a vector of %d" % (a[0].pos, len(o.items)))
+    if len(a) == 3 and isinstance(a[1], It) and isinstance(a[2], It):
+        o.items[a[0].pos:a[0].pos] = [_cp(x) for x in _elems(a[1], a[2])]       # insert (pos, first, last)
+        return It(o, a[0].pos)
     o.items.insert(a[0].pos, _cp(a[1]))
     return It(o, a[0].pos)
+
+
+def _remove_if(ev, o, a):
+    """std::remove_if as libstdc++ does it: kept elements are moved to the front in order, the iterator past them is returned, and
+    what lies behind it is left over (here: the stale elements; the caller is expected to erase the whole tail)"""
+    first, last, pred = a[0], a[1], a[2]
+    r = _rng(first, last)
+    items = first.vec.items
+    out = first.pos
+    for i in r:
+        if not ev.truth(_apply1(ev, pred, items[i])):
+            if out != i:
+                items[out] = items[i]
+            out += 1
+    return It(first.vec, out)
 
 
 def _inc(o, n):
@@ -800,6 +818,9 @@ def _vector_hooks():
         "std::lower_bound<*": _lower_bound,
         "std::binary_search<*": _binary_search,
         "std::sort<*": _sort,
+        "method:flags": lambda ev, o, a: (o.get_flags() if not a else o.set_flags(a[0])) if isinstance(o, OStream) else (_ for _ in ()).throw(Broken("flags() on an unmodelled stream")),
+        "method:fill": lambda ev, o, a: ((ord(o.fill) if not a else (setattr(o, "fill", chr(int(a[0]) & 0xff)), 0)[1])) if isinstance(o, OStream) else (_ for _ in ()).throw(Broken("fill() on an unmodelled stream")),
+        "std::remove_if<*": _remove_if,
         "std::mismatch<*": _mismatch,
         "std::equal<*": _equal,
         "std::search<*": _search,
@@ -824,6 +845,16 @@ class OStream:
 
     def text(self):
         return "".join(self.out)
+
+    def get_flags(self):
+        return ("fmtflags", self.base, self.showbase, self.boolalpha)
+
+    def set_flags(self, f):
+        if not (isinstance(f, tuple) and f and f[0] == "fmtflags"):
+            raise Broken("stream flags set from a value the model does not know")
+        old = self.get_flags()
+        _, self.base, self.showbase, self.boolalpha = f
+        return old
 
     def _emit(self, text):
         # std::setw applies to the next formatted insertion only; padding on the left (the repository never sets std::left)
@@ -1152,6 +1183,13 @@ class CxxEvaluator(Evaluator):
                     o = env.get(vid) if not isinstance(env, LayerEnv) else dict.get(env, vid)
                     if isinstance(o, Obj) and o is not escaping and self._dtor_of(o) is not None:
                         self.destroy(o)
+        if isinstance(s, dict) and s.get("k") in ("cast", "ctor") and self.prog is not None:
+            # an expression statement that only creates a temporary (`guard {x};`): the temporary dies at the end of the statement
+            self.steps += 1
+            v = self.eval(s, env, this)
+            if isinstance(v, Obj) and self._dtor_of(v) is not None:
+                self.destroy(v)
+            return
         if isinstance(s, dict) and s.get("k") == "decl":
             self.steps += 1
             for v in s["vars"]:
@@ -1191,6 +1229,14 @@ class CxxEvaluator(Evaluator):
         if e is None:
             return None
         k = e.get("k")
+        if k == "call" and e.get("fn") == "operator=" and (e.get("cls") or "").startswith(("std::unique_ptr<", "std::shared_ptr<")) and e.get("a"):
+            # (move) assignment of a smart pointer: the target is re-bound (a unique_ptr deletes what it owned), a moved-from source is null
+            lhs_n, rhs_n = (e["obj"], e["a"][0]) if e.get("obj") is not None else ((e["a"][0], e["a"][1]) if len(e["a"]) == 2 else (None, None))
+            if lhs_n is not None:
+                val = self.eval(rhs_n, env, this)
+                self.store(lhs_n, val, env, this)
+                self._null_moved_from(rhs_n, env, this)
+                return val
         if k == "call" and (e.get("f") or "").startswith("std::make_pair<") and len(e.get("a", [])) == 2 and self.hook_for(e["f"]) is self.hooks.get("std::make_pair<*"):
             vals = [self.eval(a, env, this) for a in e["a"]]
             for a in e["a"]:
